@@ -913,6 +913,51 @@ func (g *c15Gen) deepBlock() {
 	g.say("L%d = serialize(L%d)", i, m)
 }
 
+// wideBlock: a map of about MAX_ARRAY_SIZE (1024) entries, built in a loop
+// with scrambled integer keys, then serialised (directly or inside an array).
+// KEYS / VALUES cannot hold that many items, Runtime.Serialize can: the sorted
+// key order has to hold on both sides of that bound. The map lives in a
+// temporary, only the serialised bytes become a local.
+func (g *c15Gen) wideBlock() {
+	t := g.t
+	a := g.a
+	n := []int{1023, 1024, 1025, 1026, 1027 + t.Choose(40)}[t.Pick(1, 2, 4, 2, 3)]
+	mul := 2 + t.Choose(5000)
+	const p = 65521
+	wrap := t.Prob(1, 3)
+	a.op(vm.NEWMAP)
+	g.st(g.tAcc())
+	a.op(vm.PUSH0)
+	g.st(g.tI())
+	top, end := g.label("wide"), g.label("wend")
+	a.label(top)
+	g.ld(g.tI())
+	a.pushInt(int64(n)).op(vm.LT).jump(vm.JMPIFNOT, end)
+	g.ld(g.tAcc())
+	g.ld(g.tI())
+	a.pushInt(int64(mul)).op(vm.MUL).pushInt(p).op(vm.MOD)
+	g.ld(g.tI())
+	a.op(vm.SETITEM)
+	g.ld(g.tI())
+	a.op(vm.INC)
+	g.st(g.tI())
+	a.jump(vm.JMP, top)
+	a.label(end)
+	i := g.target()
+	g.ld(g.tAcc())
+	if wrap {
+		a.op(vm.PUSH1, vm.PACK)
+	}
+	a.syscall("System.Runtime.Serialize")
+	g.st(i)
+	g.set(i, c15Val{c15TBytes, -1}, false)
+	g.bigMap = true
+	g.consumer = true
+	g.usedOps["Serialize"] = true
+	g.usedOps["wide"] = true
+	g.say("L%d = serialize(%smap{(i*%d)%%%d: i | i < %d}%s)   (wide)", i, map[bool]string{true: "[", false: ""}[wrap], mul, p, n, map[bool]string{true: "]", false: ""}[wrap])
+}
+
 type c15Program struct {
 	code      []byte
 	desc      []string
@@ -943,9 +988,17 @@ func c15Generate(c *simkit.Ctx, store common.Address, deepClass bool) *c15Progra
 	if deepClass {
 		deepAt = t.Choose(nStmt)
 	}
+	wideAt := -1
+	if !deepClass && t.Prob(1, 6) {
+		wideAt = t.Choose(nStmt)
+	}
 	for s := 0; s < nStmt; s++ {
 		if s == deepAt {
 			g.deepBlock()
+			continue
+		}
+		if s == wideAt {
+			g.wideBlock()
 			continue
 		}
 		for tries := 0; tries < 4 && !g.statement(); tries++ {
